@@ -194,3 +194,46 @@ lzma_crc32(const uint8_t *buf, size_t size, uint32_t crc)
 	return lzma_crc32_generic(buf, size, crc);
 #endif
 }
+
+
+#ifdef TUKAANI_PROJECT_XZ_VERIF
+// Hooks for external monitors: make each implementation that was built
+// callable on its own, whatever the runtime dispatcher picked.
+extern uint32_t lzma_verif_crc32_generic(
+		const uint8_t *buf, size_t size, uint32_t crc);
+extern uint32_t lzma_verif_crc32_arch(
+		const uint8_t *buf, size_t size, uint32_t crc);
+extern int lzma_verif_crc32_arch_supported(void);
+
+extern uint32_t
+lzma_verif_crc32_generic(const uint8_t *buf, size_t size, uint32_t crc)
+{
+#ifdef CRC32_GENERIC
+	return lzma_crc32_generic(buf, size, crc);
+#else
+	return lzma_crc32(buf, size, crc);
+#endif
+}
+
+extern uint32_t
+lzma_verif_crc32_arch(const uint8_t *buf, size_t size, uint32_t crc)
+{
+#ifdef CRC32_ARCH_OPTIMIZED
+	return crc32_arch_optimized(buf, size, crc);
+#else
+	return lzma_crc32(buf, size, crc);
+#endif
+}
+
+extern int
+lzma_verif_crc32_arch_supported(void)
+{
+#if defined(CRC32_GENERIC) && defined(CRC32_ARCH_OPTIMIZED)
+	return is_arch_extension_supported() ? 1 : 0;
+#elif defined(CRC32_ARCH_OPTIMIZED)
+	return 1;
+#else
+	return 0;
+#endif
+}
+#endif
